@@ -1,6 +1,7 @@
 package c09
 
 import (
+	"regexp"
 	"sort"
 	"strings"
 	"sync"
@@ -56,6 +57,8 @@ var denylist = map[string]string{
 }
 
 // target is one function in one calling mode.
+var numericType = regexp.MustCompile(`number|integer|real|fixnum|bignum|float|ratio|byte`)
+
 type target struct {
 	Fn   string // pkg:name
 	Pkg  string
@@ -68,6 +71,7 @@ type target struct {
 	maxArgs int      // documented maximum number of arguments, -1 = unlimited
 	keys    []string // documented &key names
 	skips   bool     // the function skips evaluation of at least one argument
+	numeric bool     // a documented parameter is a number (type text of its DocArg)
 }
 
 var (
@@ -117,6 +121,9 @@ func loadTargets() {
 				t.maxArgs = 0
 				state := 0
 				for _, a := range e.fi.Doc.Args {
+					if numericType.MatchString(strings.ToLower(a.Type)) {
+						t.numeric = true
+					}
 					switch strings.ToLower(a.Name) {
 					case "&optional":
 						state = 1
